@@ -18,6 +18,7 @@ func classify(v *report.Violation) {
 	// address, store Put fails: the "rollback" releases the pre-existing allocation.
 	case strings.HasPrefix(v.Part, "allocator.DistributedAllocator[") && v.Kind == "stability" &&
 		(v.Site == "Allocate" || v.Site == "AllocateWithMAC") && has("[cause=rollback-of-existing-allocation]") && failedReask(v.Trace):
+		// repaired by C12-F1 (committed): no longer listed as known, so a regression is reported as VIOLATION with this label
 		v.Class = "C01-dist-rollback-existing"
 	// nexus.Client: two subscribers whose FNV-1a hash selects the same host offset get the same address.
 	case strings.HasPrefix(v.Part, "nexus.Client[") && v.Kind == "duplicate" && v.Site == "AllocateIPForSubscriber" && has("[cause=hash-collision "):
